@@ -196,6 +196,15 @@ class Check(object):
                 ref, und = self.finite_scope(g, reg, open_names, rows)
                 refuted.extend(ref)
                 undecided.extend(und)
+        # static checks on source literals (python evaluation of constants re-read from the source on every run)
+        self.static_rows = []
+        sc = getattr(self.prop, "static_checks", None)
+        if sc is not None:
+            for r in sc(self.repo):
+                self.static_rows.append(r)
+                if not r["ok"]:
+                    refuted.append(dict(obligation=r["name"], clause=r["clause"], kind="static", scope=None, trace=[], model={"detail": r["detail"]},
+                                        solver="python evaluation of the source literal", full_scope=r["detail"]))
         return self.report(errors, refuted, undecided, all_rows, functions, notes, n_covers_bad, solver_s, backends, assumptions)
 
     # ------------------------------------------------------------------------------------------
@@ -396,7 +405,9 @@ class Check(object):
                 "trusted_base": ["z3 %s (python API)" % z3.get_version_string(), "cvc5 1.0.3 (CLI, takes z3 unknowns)",
                                  "pyvc encoder (/verif/pyvc): Python semantics as stated in DESIGN.md 2.3-2.5, section 5"],
                 "clause_obligations": len(by_name),
+                "static_checks": getattr(self, "static_rows", []),
                 "known_finding_obligations_expected_refuted": kf_unproved,
+                "slowest_obligations": sorted([(round(r.get("z3_s", 0) + r.get("cvc5_s", 0), 2), o.name) for _, _, o, r in rows], reverse=True)[:5],
                 "by_backend": backends, "solver_seconds": {k: round(v, 2) for k, v in solver_s.items()},
                 "functions_under_contract": functions,
                 "refuted": [r["obligation"] for r in refuted], "undecided": [u["obligation"] for u in undecided],
